@@ -47,7 +47,7 @@ verdict), "G" = generator of an input / fault space, "A" = acceptor used for tra
 | `fanout` | `Fanout` (I: publisher, joiners, consumer goroutines, closer, stoppers, replacement; named deviations FixWake / FixAttach / FixCount / FixJoin), `FanoutProp` (P), `MCFanout` (invariants, edge classes), `FanoutTrace` (A, API level), `FanoutSteps` (A, step level) | model check + schedule generation + trace validation | `harness/fanout` + `harness/vsched` (goroutines parked at `vhook.At` points, one step at a time) | C01 C02 C03 C04 |
 | `registry` | `Registry` (P: sequential reference model with the statement's clauses as invariants), `RegistRace` (I: two concurrent Regist / GetOrCreate), `RaceTrace` (A) | histories (exhaustive, edge cover, walks), race schedules | `harness/registry` | C05 (and C03's registry leg) |
 | `rtsp` | `RtspSession` (P/I: 20 request kinds x state) | edge cover + walks | `harness/rtspsess` against a live server | C12 |
-| `wire` | `WriteLock` (I: lock protocol, negative controls NoFrameLock / NoRespLock), `WireTrace` (A) | gates at `frame.prefix` / `flush.written` | `harness/c13`, tcp + websocket | C13 |
+| `wire` | `WriteLock` (I: lock protocol, negative controls NoFrameLock / NoRespLock), `BufferedWrite` (I: the shared write buffer at copy / advance, emit / reset grain; negative control flush outside the lock), `WireTrace` (A) | gates at `frame.prefix` / `flush.written` | `harness/c13`, tcp + websocket | C13 |
 | `auth` | `Auth` (P: reference monitor over users, rights as last saved, tokens) | edge cover | `harness/c11`, nine entry points of a live server | C11 |
 | `pull` | `Pull` (P/I: 1940 camera plans) | plan enumeration | `harness/c20` scripted camera | C20 |
 | `depack` | `Depack` (P: must / may receiver over packetisation and fault plans) | plan enumeration | `harness/c06` independent packetiser | C06 |
@@ -174,8 +174,7 @@ enumerated; this section only records where the build differs from the design.
   in every run), the server-level leg compares HTTP bytes with a synchronous reference run.
 * **C11** reference monitor + ten entry points (WSP added late: control + data socket, and a leg that joins a data
   socket to another user's channel using ids derived from the attacker's own - a genuine defect, fixed in b6695a6).
-* **C12, C13** as designed; `WriteLock.tla` does not model the buffered flush separately (the flush gate is in the
-  harness).
+* **C12, C13** as designed; the buffered flush is modelled in `BufferedWrite.tla` (added late), the flush gate is in the harness.
 * **C14** `Wire` became `WireReader` (design model) + `WireCases` / `WireFaults` / `RtspWire`; the dispatcher is reached through a verif-only
   export.
 * **C15** `CodecSyntax` became `ParamCases` (branch space) + `ParamProp` (derivations) with bit-exact encoders in
